@@ -2,6 +2,8 @@ package engine
 
 import (
 	"bytes"
+	"crypto/sha256"
+	"encoding/hex"
 	"context"
 	"fmt"
 	"os"
@@ -36,7 +38,33 @@ var solvers = []solverSpec{
 }
 
 // Solve races the installed solvers on one script. wantSat is for cover queries.
+// proofCache remembers scripts that a solver has already answered unsat (keyed by the hash of the exact script): the
+// same verification condition is generated again when a unit serves several properties.
+var proofCacheDir = ""
+
+func cacheKey(script string) string {
+	h := sha256.Sum256([]byte(script))
+	return hex.EncodeToString(h[:])
+}
+
 func Solve(script, file string, timeoutS int, all bool) Verdict {
+	if proofCacheDir != "" && !all {
+		if data, err := os.ReadFile(filepath.Join(proofCacheDir, cacheKey(script))); err == nil {
+			parts := strings.SplitN(strings.TrimSpace(string(data)), " ", 2)
+			if len(parts) == 2 && parts[0] == "unsat" {
+				return Verdict{Status: "proved", Backend: parts[1] + " (cached)", Output: "unsat", Bytes: len(script), File: file}
+			}
+		}
+	}
+	v := solveUncached(script, file, timeoutS, all)
+	if proofCacheDir != "" && v.Status == "proved" {
+		os.MkdirAll(proofCacheDir, 0o755)
+		os.WriteFile(filepath.Join(proofCacheDir, cacheKey(script)), []byte("unsat "+v.Backend+"\n"), 0o644)
+	}
+	return v
+}
+
+func solveUncached(script, file string, timeoutS int, all bool) Verdict {
 	os.MkdirAll(filepath.Dir(file), 0o755)
 	os.WriteFile(file, []byte(script), 0o644)
 	ctx, cancel := context.WithTimeout(context.Background(), time.Duration(timeoutS+2)*time.Second)
